@@ -14,14 +14,15 @@
      track and never more than 1 ms off, whatever the clock rate.
 
    Parts: (1) timestamps c07_ts_*; (2) interleave queue c07_queue_*;
-   (3) remuxer c07_av2rtmp_*; (4) reordering c07_reorder (C12 instantiated) and
-   the RTSP video composition c07_rtsp_video_partial; (5) GB28181
+   (3) remuxer c07_av2rtmp_*; (4) reordering c07_reorder (C12 instantiated), the
+   simulation between the C13 in-session model and the C12 container, the RTSP end-to-end
+   theorems c07_rtsp_video (one track) and c07_rtsp_two_tracks (queue); (5) GB28181
    c07_ps_frame_nals, c07_ps_frames; (6) customize c07_customize.  What is NOT linked by a
    theorem is said at each _partial. *)
 From Lal Require Import Common.LBytes Common.Res
   Codec.CodecNalFraming Codec.CodecNalFramingProofs Codec.CodecAvcSeqHeader Codec.CodecHevcSeqHeader Codec.CodecAac
   Remux.RemuxAv2Rtmp Remux.RemuxAvQueue Remux.RemuxAv2RtmpProofs Remux.RemuxAvQueueProofs Remux.RemuxTsProofs
-  Remux.RemuxRtspIngestProofs.
+  Remux.RemuxRtspIngestProofs Remux.RemuxRtspIngest Remux.RemuxUnpackSimProofs Remux.RemuxRtspSessProofs Remux.RemuxRtspTwoTrackProofs.
 From Lal Require Net.NetPs Remux.RemuxPsIngestProofs Remux.RemuxPsPesProofs Remux.RemuxPsIngest.
 From Lal Require Rtp.RtpPacker Rtp.RtpUnpacker Rtp.RtpReorder Rtp.RtpFrames Rtp.RtpReorderAbs Rtp.RtpStreamProofs
   Rtp.RtpRoundtripProofs Net.NetUnpack Codec.CodecAvcSeqHeaderProofs Codec.CodecHevcSeqHeaderProofs.
@@ -205,12 +206,11 @@ Print Assumptions c07_av2rtmp_adts_small_pinned_refuted.
    the window w / 2^14) give the AvPackets of the in-order run, with
    timestamps rtp_ms, and the remuxer turns them into messages whose NAL units
    read back as the publisher's, AUD / parameter sets removed.
-   PARTIAL: the container here is the C12 model; the RTSP in-session around it
-   (RTP header parsing, payload-type dispatch, two tracks + interleave queue) is
-   the C13 model Net/NetInSess.v, related to the same Go code by the
-   correspondence runs c07.rtsp / c07.e2e_rtsp, not by a lemma; the Group
-   fan-out behind the remuxer is C01, chunk / tag serialisation C08 / C11. *)
-Theorem c07_rtsp_video_partial : forall c maxp rate w d (nals : list (N * bytes)) sched st st' msgs,
+   This theorem is about the C12 container; c07_rtsp_video below is the same
+   statement over the RTSP in-session model the harness exercises (C13,
+   Net/NetInSess.v), obtained through the simulation c07_insess_container_sim.
+   Behind the remuxer: Group fan-out = C01, chunk / tag serialisation = C08 / C11. *)
+Theorem c07_rtsp_video_container : forall c maxp rate w d (nals : list (N * bytes)) sched st st' msgs,
   RtpPacker.fu_hdr_size c < maxp -> RtpFrames.rate_ok rate -> d < 65536 ->
   Forall (fun tn => RtpRoundtripProofs.nal_ok c (snd tn)) nals ->
   Forall (fun tn => lenN (snd tn) < 4294967296) nals ->
@@ -226,7 +226,7 @@ Theorem c07_rtsp_video_partial : forall c maxp rate w d (nals : list (N * bytes)
     (feed_all_av true st (map (av_of_out (pt_of_codec c)) outs) = Ok (st', msgs) ->
      read_video_nals (av_msgs msgs) = filter (keep_nal (hevc_of_codec c)) (map snd nals)).
 Proof. exact rtsp_video_track. Qed.
-Print Assumptions c07_rtsp_video_partial.
+Print Assumptions c07_rtsp_video_container.
 
 (* two admissible arrival orders of the same packets: the same AvPackets, hence the same RTMP messages *)
 Theorem c07_reorder : forall c maxp rate w d (nals : list (N * bytes)) sched1 sched2,
@@ -241,6 +241,133 @@ Theorem c07_reorder : forall c maxp rate w d (nals : list (N * bytes)) sched1 sc
   run sched1 = run sched2.
 Proof. exact reorder_same. Qed.
 Print Assumptions c07_reorder.
+
+(* ---- the same over the in-session model (C13) ----
+   One call of RtpUnpackContainer.Feed in the C13 model (raw packet, parsed header,
+   checked accessors) against the C12 model (seq, ts, body): for related states
+   (same queue packet for packet, Size, doneSeq) and a packet without RTP padding,
+   whenever the C13 call returns, the C12 call returns the related state and the
+   same AvPackets - for AVC, HEVC (single, STAP-A / AP, FU), AAC (one, several,
+   fragmented access units) and raw payloads, any clock rate 1 .. 2^63-1 *)
+Theorem c07_insess_container_sim : forall u, clock_pos (NetUnpack.uk_clock u) ->
+  forall w c13 c12 h raw body, crel c13 c12 ->
+  NetRtpHeader.rtp_body raw h = Ok (body, []) -> bytes_ok body -> lenN body < 65536 ->
+  match NetUnpack.cont_feed true u w c13 h raw with
+  | Ok (c', av) =>
+      exists st' outs,
+        RtpReorder.feed (pr_of (NetUnpack.uk_kind u)) (Z.to_N (NetUnpack.uk_clock u)) w c12
+                        (NetRtpHeader.rh_seq h) (NetRtpHeader.rh_ts h) body = Ok (st', outs) /\
+        crel c' st' /\ av = map (to_av (NetUnpack.uk_pt u)) outs
+  | _ => True
+  end.
+Proof. exact feed_sim. Qed.
+Print Assumptions c07_insess_container_sim.
+
+(* a video-only publisher: what rtsp_ingest (SDP -> session as created -> every
+   interleaved packet through handleRtpPacket -> unpack container -> remuxer)
+   hands to the group is the remuxer's output on what the C12 container returns
+   for the same arrivals.  Packets are written by a reference RTP writer
+   (12-byte header, payload of 1 .. 65535 byte values) *)
+Theorem c07_rtsp_video_ingest : forall fx flt rot (hevc : bool) vclock vpt ssrc arrivals groups,
+  (1000 <= vclock < 4294967296000)%Z -> 0 < vpt < 128 -> ssrc < 4294967296 -> Forall arr_ok arrivals ->
+  rtsp_ingest fx flt rot NetInSess.c_none 0 0 None (vcodec_tok hevc) vclock (Z.of_N vpt) None None None
+              (map (fun a => (2, raw_of vpt ssrc a)) arrivals) = Ok groups ->
+  exists st12 outs r',
+    RtpReorder.feed_all (pr_of (vkind hevc)) (Z.to_N vclock) 1024 RtpReorder.c_init arrivals = Ok (st12, outs) /\
+    feed_all_av fx rs_new (map (to_av (vpt_of hevc)) outs) = Ok (r', concat groups).
+Proof. exact rtsp_video_ingest. Qed.
+Print Assumptions c07_rtsp_video_ingest.
+
+(* END TO END for one video track, over the in-session model: the publisher's NAL
+   units (n0 first, then [rest]) packed by lal's packer rules (single packets / FU
+   fragments, any payload limit), the packets of the first unit in order (they
+   prime the container as created), all others in ANY admissible arrival order
+   (duplicates, stale repeats, swaps inside the window of 1024 / 2^14, sequence
+   numbers wrapping): the RTMP messages read back as exactly these units, in
+   order, each once, access unit delimiters and parameter sets removed *)
+Theorem c07_rtsp_video : forall flt rot (hevc : bool) maxp vclock vpt ssrc s0 ts0 n0 pls0 (rest : list (N * bytes)) sched groups,
+  let c := codec_of hevc in
+  let pr := RtpFrames.proto_of_codec c in
+  let rate := Z.to_N vclock in
+  RtpPacker.fu_hdr_size c < maxp -> (1000 <= vclock < 4294967296000)%Z -> 0 < vpt < 128 -> ssrc < 4294967296 ->
+  RtpRoundtripProofs.nal_ok c n0 -> Forall (fun tn => RtpRoundtripProofs.nal_ok c (snd tn)) rest ->
+  lenN n0 < 4294967296 -> Forall (fun tn => lenN (snd tn) < 4294967296) rest ->
+  s0 < 65536 -> RtpPacker.pack_nal true c n0 maxp = Ok pls0 -> (length pls0 <= 1024)%nat ->
+  let d := RtpSeqArith.seq_add s0 (lenN pls0 - 1) in
+  let s := RtpRoundtripProofs.unit_stream pr (RtpSeqArith.seq_succ d) (map (RtpRoundtripProofs.video_unit c maxp rate) rest) in
+  RtpReorderAbs.sched_ok 1024 (RtpStreamProofs.init_astate s) sched ->
+  (forall i, (i < length (RtpStreamProofs.pkts s))%nat -> In i sched) ->
+  let arrivals := map RtpStreamProofs.upkt_arrival (RtpFrames.mk_upkts pr s0 ts0 pls0)
+                  ++ map (fun i => RtpStreamProofs.upkt_arrival (RtpStreamProofs.pkt_at s i)) sched in
+  Forall arr_ok arrivals ->
+  rtsp_ingest true flt rot NetInSess.c_none 0 0 None (vcodec_tok hevc) vclock (Z.of_N vpt) None None None
+              (map (fun a => (2, raw_of vpt ssrc a)) arrivals) = Ok groups ->
+  read_video_nals (av_msgs (concat groups)) = filter (keep_nal hevc) (n0 :: map snd rest).
+Proof. exact rtsp_video_end_to_end. Qed.
+Print Assumptions c07_rtsp_video.
+
+(* an audio-only publisher (AAC with config, G.711 A/u, Opus): OnSdp's messages first, then
+   the remuxer's output on what the C12 container returns (c12_reorder_audio, c12_audio_* apply to it) *)
+Theorem c07_rtsp_audio_ingest : forall fx flt rot ac aclock apt ssrc asc arrivals groups,
+  (ac = NetInSess.c_aac /\ asc <> None) \/ (ac = NetInSess.c_pcma \/ ac = NetInSess.c_pcmu \/ ac = NetInSess.c_opus) ->
+  (1000 <= aclock < 4294967296000)%Z -> apt < 128 -> ssrc < 4294967296 -> Forall arr_ok arrivals ->
+  rtsp_ingest fx flt rot ac aclock (Z.of_N apt) asc NetInSess.c_none 0 0 None None None
+              (map (fun a => (0, raw_of apt ssrc a)) arrivals) = Ok groups ->
+  exists r0 ms0 more st12 outs r',
+    init_with_av_config rs_new asc None None None = Ok (r0, ms0) /\ groups = ms0 :: more /\
+    RtpReorder.feed_all (pr_of (akind ac)) (Z.to_N aclock) 1024 RtpReorder.c_init arrivals = Ok (st12, outs) /\
+    feed_all_av fx r0 (map (to_av (apt_of ac)) outs) = Ok (r', concat more).
+Proof. exact rtsp_audio_ingest. Qed.
+Print Assumptions c07_rtsp_audio_ingest.
+
+(* TWO TRACKS through the interleave queue: any interleaving of the audio track's
+   and the video track's packets (each track in any order its container admits).
+   The in-session run decomposes into the two C12 containers on their own
+   sub-sequences, ONE list of AvPackets in the order they reached
+   AvPacketQueue.Feed (its audio part = the audio container's output, its video
+   part = the video container's), the queue run on that list (c07_queue_merge /
+   c07_queue_rebase apply to it) and the remuxer on what the queue let through *)
+Theorem c07_rtsp_two_tracks_run : forall fx rot cfg ua uv apt vpt assrc vssrc,
+  clock_pos (NetUnpack.uk_clock ua) -> clock_pos (NetUnpack.uk_clock uv) ->
+  NetInSess.sc_aunp cfg = Some ua -> NetInSess.sc_vunp cfg = Some uv ->
+  NetInSess.sc_apt cfg = Z.of_N apt -> NetInSess.sc_vpt cfg = Z.of_N vpt -> apt <> vpt ->
+  NetInSess.sc_artp cfg = 0 -> NetInSess.sc_vrtp cfg = 2 -> apt < 128 -> vpt < 128 ->
+  assrc < 4294967296 -> vssrc < 4294967296 ->
+  is_video_pt (NetUnpack.uk_pt uv) = true -> is_video_pt (NetUnpack.uk_pt ua) = false ->
+  forall pkts s ca cv q r groups,
+  crel (NetInSess.ss_acont s) ca -> crel (NetInSess.ss_vcont s) cv -> Forall (fun x => arr_ok (snd x)) pkts ->
+  rtsp_run fx rot cfg s (Some q) r (map (enc apt vpt assrc vssrc) pkts) = Ok groups ->
+  exists avs sa oa sv ov q' outs r',
+    RtpReorder.feed_all (pr_of (NetUnpack.uk_kind ua)) (Z.to_N (NetUnpack.uk_clock ua)) NetInSess.unpacker_max_size ca (sel false pkts) = Ok (sa, oa) /\
+    RtpReorder.feed_all (pr_of (NetUnpack.uk_kind uv)) (Z.to_N (NetUnpack.uk_clock uv)) NetInSess.unpacker_max_size cv (sel true pkts) = Ok (sv, ov) /\
+    as_ avs = map (to_av (NetUnpack.uk_pt ua)) oa /\ vs avs = map (to_av (NetUnpack.uk_pt uv)) ov /\
+    aq_run rot q avs = (q', outs) /\
+    feed_all_av fx r (concat outs) = Ok (r', concat groups).
+Proof. exact two_track_run. Qed.
+Print Assumptions c07_rtsp_two_tracks_run.
+
+(* ... hence, when the video container returns the publisher's units (c12_reorder_video /
+   c07_rtsp_video_container give exactly this form), a consumer reads a PREFIX of them - same
+   units, same order, each once, AUD / parameter sets removed - and fewer than 128 units are
+   still held back by the queue when the input stops *)
+Theorem c07_rtsp_two_tracks : forall rot cfg ua uv apt vpt assrc vssrc (hevc : bool)
+        pkts s ca cv r groups sv (tsf : N * bytes -> N) (nals : list (N * bytes)),
+  clock_pos (NetUnpack.uk_clock ua) -> clock_pos (NetUnpack.uk_clock uv) ->
+  NetInSess.sc_aunp cfg = Some ua -> NetInSess.sc_vunp cfg = Some uv ->
+  NetInSess.sc_apt cfg = Z.of_N apt -> NetInSess.sc_vpt cfg = Z.of_N vpt ->
+  apt <> vpt -> NetInSess.sc_artp cfg = 0 -> NetInSess.sc_vrtp cfg = 2 -> apt < 128 -> vpt < 128 ->
+  assrc < 4294967296 -> vssrc < 4294967296 ->
+  NetUnpack.uk_pt uv = (if hevc then pt_hevc else pt_avc) -> is_video_pt (NetUnpack.uk_pt ua) = false ->
+  rs_vfmt r = vfmt_avcc -> crel (NetInSess.ss_acont s) ca -> crel (NetInSess.ss_vcont s) cv ->
+  Forall (fun x => arr_ok (snd x)) pkts ->
+  rtsp_run true rot cfg s (Some aq_init) r (map (enc apt vpt assrc vssrc) pkts) = Ok groups ->
+  RtpReorder.feed_all (pr_of (NetUnpack.uk_kind uv)) (Z.to_N (NetUnpack.uk_clock uv)) NetInSess.unpacker_max_size cv (sel true pkts)
+    = Ok (sv, map (fun tn => (tsf tn, RtpUnpacker.avcc (snd tn))) nals) ->
+  Forall (fun tn => avcc_ok (snd tn)) nals ->
+  exists k, (k <= length nals)%nat /\ (length nals - k < 128)%nat /\
+            read_video_nals (av_msgs (concat groups)) = filter (keep_nal hevc) (map snd (firstn k nals)).
+Proof. exact two_tracks_video_nals. Qed.
+Print Assumptions c07_rtsp_two_tracks.
 
 (* HEVC filler data / end of sequence / reserved types: the pinned tree gave such a
    packet no position (it then blocked the queue until 1024 packets had piled up) *)
